@@ -13,6 +13,7 @@ to K_xx, which the property leaves open - every covariance is compared with the 
 and the closest candidate is asserted."""
 from __future__ import annotations
 
+import contextlib
 import copy
 import math
 
@@ -194,7 +195,7 @@ def svgp_case(draw, strategies, dists=tuple(VO.DISTS), batch="mixed", modes=("ev
     return {"d": d, "M": M, "n": n, "bp": bp, "model": model, "X": X, "xmode": xmode, "q": draw(VM.q_params(M, bp["vb"])),
             "mode": draw(st.sampled_from(list(modes))), "init": init, "torch_seed": draw(st.integers(0, 2**31 - 1)),
             # settings.trace_mode (the documented setting for torch.jit.trace of a variational GP): dense branch of the strategies
-            "trace": draw(st.integers(0, 3)) == 0}
+            "trace": draw(st.integers(0, 3)) == 0, "stale_probe": draw(st.integers(0, 2)) == 0}
 
 
 def encode_extras(draw, dist, M, vb):
@@ -276,10 +277,25 @@ def build_and_call(ctx, case, r, params_by_strategy, X, call_kwargs=None, want_c
         for getter, params in params_by_strategy:
             VM.set_q(getter(model), params, mark=True)
         model.train(case["mode"] == "train")
+    nograd = contextlib.nullcontext()
+    if case.get("stale_probe") and case["mode"] == "train":
+        # training mode memoizes nothing across calls: call once with autograd on, change q(u) (as an optimiser step would), and make
+        # the observed call under torch.no_grad() (monitoring the fit without switching to eval()): it must see the new parameters
+        with ctx.observing("forward.warm"):
+            with torch.no_grad():
+                for getter, params in params_by_strategy:
+                    for prm in getter(model)._variational_distribution.parameters():
+                        prm.mul_(0.5)  # every parameterisation (Cholesky factor, natural parameters, ...) stays valid under scaling
+            with settings_cm:
+                model(X, **call_kwargs)
+            for getter, params in params_by_strategy:
+                VM.set_q(getter(model), params, mark=True)
+        nograd = torch.no_grad()
+        ctx.label("train_call_under_no_grad_after_change")
     obs = {}
     with ctx.observing("forward", reject=reject, reject_match=reject_match):
         torch.manual_seed(case.get("torch_seed", 0))
-        with settings_cm, S.trace_mode(bool(case.get("trace"))):
+        with settings_cm, S.trace_mode(bool(case.get("trace"))), nograd:
             out = model(X, **call_kwargs)
             obs["mean"] = out.mean
             obs["variance"] = out.variance
